@@ -413,17 +413,24 @@ class ShardedFileAccessor(neuroglancer_scripts.accessor.Accessor,
 
         self.kwargs = kwargs
 
+    def _file_path(self, relative_path):
+        file_path = self.base_dir / relative_path
+        if ".." in file_path.relative_to(self.base_dir).parts:
+            raise ValueError("only relative paths pointing under base_dir "
+                             "are accepted")
+        return file_path
+
     def file_exists(self, relative_path: str):
-        return (self.base_dir / relative_path).exists()
+        return self._file_path(relative_path).exists()
 
     def fetch_file(self, relative_path):
-        with open(self.base_dir / relative_path, "rb") as fp:
+        with open(self._file_path(relative_path), "rb") as fp:
             return fp.read()
 
     def store_file(self, relative_path, buf, overwrite=False, **kwargs):
         if not overwrite and self.file_exists(relative_path):
             raise OSError(f"file at {relative_path} already exists")
-        with open(self.base_dir / relative_path, "wb") as fp:
+        with open(self._file_path(relative_path), "wb") as fp:
             fp.write(buf)
 
     def fetch_chunk(self, key, chunk_coords):
